@@ -36,6 +36,7 @@ struct MNode {
   long client = 0, in = 0;
   std::vector<int> out;     // children in order (map: key, value, ...)
   bool alive = true;
+  bool client_handle = false;   // definite string whose payload block was attached by the client with *_set_handle
   ref::Node leaf;           // leaves: full AST; containers: type / indef / tag value
 };
 
@@ -240,7 +241,7 @@ struct Interp {
     switch (op) {
       case H_NEW: {
         int s = free_slot(); if (s < 0) return;
-        int kind = a % 22; cbor_item_t* it = nullptr; ref::Node leaf; int type = 0; bool indef = false; size_t cap = 0;
+        int kind = a % 22; cbor_item_t* it = nullptr; ref::Node leaf; int type = 0; bool indef = false; size_t cap = 0; bool new_client_handle = false;
         uint64_t val = (uint64_t)b * 0x0101010101010101ULL ^ ((uint64_t)c << 3);
         switch (kind) {
           case 0: it = LC(cbor_build_uint8((uint8_t)val)); leaf.type = 0; leaf.width = 0; leaf.value = (uint8_t)val; break;
@@ -249,8 +250,14 @@ struct Interp {
           case 3: it = LC(cbor_build_uint64(val)); leaf.type = 0; leaf.width = 3; leaf.value = val; break;
           case 4: it = LC(cbor_build_negint8((uint8_t)val)); leaf.type = 1; leaf.width = 0; leaf.value = (uint8_t)val; break;
           case 5: it = LC(cbor_build_negint64(val)); leaf.type = 1; leaf.width = 3; leaf.value = val; break;
-          case 6: { uint8_t d[4] = {a, b, c, 0x7f}; it = LC(cbor_build_bytestring(d, (size_t)(b % 5))); leaf.type = 2; leaf.bytes.assign(d, d + b % 5); break; }
-          case 7: { char d[4] = {(char)('a' + a % 26), (char)('a' + b % 26), (char)('a' + c % 26), 'z'}; it = LC(cbor_build_stringn(d, (size_t)(b % 5))); leaf.type = 3; leaf.bytes.assign(d, d + b % 5); break; }
+          case 6: { uint8_t d[4] = {a, b, c, 0x7f}; size_t l = (size_t)(b % 5); leaf.type = 2; leaf.bytes.assign(d, d + l);
+                    if (c & 1) { it = LC(cbor_new_definite_bytestring()); if (it) { unsigned char* h = (unsigned char*)LC(_cbor_malloc(l)); if (!h) { LCV(cbor_decref(&it)); it = nullptr; } else { memcpy(h, d, l); LCV(cbor_bytestring_set_handle(it, h, l)); new_client_handle = true; } } }
+                    else it = LC(cbor_build_bytestring(d, l));
+                    break; }
+          case 7: { char d[4] = {(char)('a' + a % 26), (char)('a' + b % 26), (char)('a' + c % 26), 'z'}; size_t l = (size_t)(b % 5); leaf.type = 3; leaf.bytes.assign(d, d + l);
+                    if (c & 1) { it = LC(cbor_new_definite_string()); if (it) { unsigned char* h = (unsigned char*)LC(_cbor_malloc(l)); if (!h) { LCV(cbor_decref(&it)); it = nullptr; } else { memcpy(h, d, l); LCV(cbor_string_set_handle(it, h, l)); new_client_handle = true; } } }
+                    else it = LC(cbor_build_stringn(d, l));
+                    break; }
           case 8: it = LC(cbor_new_indefinite_bytestring()); type = 2; indef = true; leaf.type = 2; leaf.indef = true; break;
           case 9: it = LC(cbor_new_indefinite_string()); type = 3; indef = true; leaf.type = 3; leaf.indef = true; break;
           case 10: case 11: cap = b % 9; it = LC(cbor_new_definite_array(cap)); type = 4; leaf.type = 4; break;
@@ -266,7 +273,7 @@ struct Interp {
         if (!it) { if (!refused_now()) flag("C04", "builder returned NULL without an allocation being refused"); break; }
         if (leaf.type <= 3 && !indef) type = leaf.type; else if (leaf.type == 7) type = 7;
         int id = add_node(it, type, indef, cap, leaf);
-        nodes[id].client = 1; slot[s] = id; effective++;
+        nodes[id].client = 1; nodes[id].client_handle = new_client_handle; slot[s] = id; effective++;
         note(std::string("new") + std::to_string(kind) + "->s" + std::to_string(s));
         break;
       }
@@ -487,8 +494,9 @@ struct Interp {
         break;
       }
       case H_RESET_HANDLE: {
-        // in-place length trim: hand the block the item already owns back to set_handle with a shorter length
-        int sa = pick_typed(a, [](const MNode& n) { return (n.type == 2 || n.type == 3) && !n.indef; }); if (sa < 0) return;
+        // in-place length trim: hand the block the client attached earlier back to set_handle with a shorter length
+        // (only for items whose payload block really is a client-provided allocator block)
+        int sa = pick_typed(a, [](const MNode& n) { return (n.type == 2 || n.type == 3) && !n.indef && n.client_handle; }); if (sa < 0) return;
         MNode& n = nodes[slot[sa]];
         size_t len = n.leaf.bytes.size(); size_t nl = len ? (size_t)b % (len + 1) : 0;
         if (n.type == 2) { unsigned char* h = cbor_bytestring_handle(n.item); LCV(cbor_bytestring_set_handle(n.item, h, nl)); }
